@@ -498,17 +498,18 @@ Proof.
 Qed.
 
 (* ------------------------------------------------------------------ resolve_inconsistencies *)
-(* how the derived names come about, starting from order o *)
-Inductive derivation : list name -> list name -> Prop :=
-| der_nil : forall o, derivation o []
+(* how the derived names come about: o0 = exported glyphs in preliminary order,
+   o = the order so far *)
+Inductive derivation (o0 : list name) : list name -> list name -> Prop :=
+| der_nil : forall o, derivation o0 o []
 | der_cons : forall o base i ds,
-    In base o ->
+    In base o0 ->
     ~ In (suffixed base i) o ->
     (forall j, j < i -> In (suffixed base j) o) ->
-    derivation (o ++ [suffixed base i]) ds ->
-    derivation o (suffixed base i :: ds).
+    derivation o0 (o ++ [suffixed base i]) ds ->
+    derivation o0 o (suffixed base i :: ds).
 
-Lemma derivation_fresh : forall o ds, derivation o ds ->
+Lemma derivation_fresh : forall o0 o ds, derivation o0 o ds ->
   NoDup ds /\ (forall x, In x ds -> ~ In x o).
 Proof.
   induction 1 as [o | o base i ds Hb Hf Hl Hd [IH1 IH2]].
@@ -518,12 +519,19 @@ Proof.
     + intros x [<-|Hx]; [exact Hf|]. intro Ho. apply (IH2 _ Hx). apply in_or_app. left. exact Ho.
 Qed.
 
-Lemma resolve_order : forall fuel d todo s p s',
-  Forall (fun t => In (g_name (snd t)) (st_order s)) todo ->
-  resolve fuel d s p todo = Some s' ->
-  exists ds, st_order s' = st_order s ++ ds /\ st_derived s' = st_derived s ++ ds /\ derivation (st_order s) ds.
+Lemma derivation_suffixed : forall o0 o ds, derivation o0 o ds ->
+  Forall (fun x => exists base i, In base o0 /\ x = suffixed base i) ds.
 Proof.
-  induction fuel as [|f IH]; intros d todo s p s' Ht H.
+  induction 1 as [o | o base i ds Hb Hf Hl Hd IH]; constructor; [|exact IH].
+  exists base, i. split; [exact Hb | reflexivity].
+Qed.
+
+Lemma resolve_order : forall o0 fuel d todo s p s',
+  Forall (fun t => In (g_name (snd t)) o0) todo ->
+  resolve fuel d s p todo = Some s' ->
+  exists ds, st_order s' = st_order s ++ ds /\ st_derived s' = st_derived s ++ ds /\ derivation o0 (st_order s) ds.
+Proof.
+  intro o0. induction fuel as [|f IH]; intros d todo s p s' Ht H.
   - destruct todo as [|[o g] rest]; simpl in H; [|discriminate].
     inversion H; subst. exists []. rewrite !app_nil_r. repeat split. constructor.
   - destruct todo as [|[o g] rest]; simpl in H.
@@ -533,17 +541,14 @@ Proof.
       * apply IH in H; [exact H|]. apply Forall_app. split; [exact Hrest|]. constructor; [exact Hg | constructor].
       * destruct o.
         -- apply IH in H; [exact H | exact Hrest].
-        -- apply IH in H.
-           ++ destruct H as [ds [H1 [H2 H3]]]. unfold move_contours in H1, H2, H3. simpl in H1, H2, H3.
-              pose proof (name_for_derivative_fresh (g_name g) (st_order s)) as Hfresh.
-              rewrite (iset_insert_fresh _ _ Hfresh) in H1, H3.
-              exists (name_for_derivative (g_name g) (st_order s) :: ds).
-              rewrite <- app_assoc in H1, H2. simpl in H1, H2. repeat split; try assumption.
-              unfold name_for_derivative in *. apply der_cons; try assumption.
-              intros j Hj. eapply first_free_least; [|exact Hj]. lia.
-           ++ unfold move_contours. simpl. eapply Forall_impl; [|exact Hrest].
-              intros t Hin. unfold iset_insert. destruct (mem _ (st_order s)); [exact Hin|].
-              apply in_or_app. left. exact Hin.
+        -- apply IH in H; [|exact Hrest].
+           destruct H as [ds [H1 [H2 H3]]]. unfold move_contours in H1, H2, H3. simpl in H1, H2, H3.
+           pose proof (name_for_derivative_fresh (g_name g) (st_order s)) as Hfresh.
+           rewrite (iset_insert_fresh _ _ Hfresh) in H1, H3.
+           exists (name_for_derivative (g_name g) (st_order s) :: ds).
+           rewrite <- app_assoc in H1, H2. simpl in H1, H2. repeat split; try assumption.
+           unfold name_for_derivative in *. apply der_cons; try assumption.
+           intros j Hj. eapply first_free_least; [|exact Hj]. lia.
 Qed.
 
 Lemma todo_of_names : forall ps snap order,
@@ -561,7 +566,8 @@ Proof. reflexivity. Qed.
 
 Lemma gow_order : forall fl prelim gs r,
   glyph_order_work fl prelim gs = Some r ->
-  r_order r = notdef_first (filter (is_export gs) prelim ++ r_derived r) /\ derivation (filter (is_export gs) prelim) (r_derived r).
+  r_order r = notdef_first (filter (is_export gs) prelim ++ r_derived r) /\
+  derivation (filter (is_export gs) prelim) (filter (is_export gs) prelim) (r_derived r).
 Proof.
   intros fl prelim gs r H. unfold glyph_order_work in H.
   set (c1 := flatten_all (prune gs)) in *.
@@ -571,7 +577,905 @@ Proof.
   { apply filter_ext_in'. intros x _. apply same_exp_is_export. exact Hexp. }
   rewrite Hf in H. set (order3 := filter (is_export gs) prelim) in *.
   match type of H with match ?R with _ => _ end = _ => destruct R as [s|] eqn:HR end; [|discriminate].
-  apply resolve_order in HR; [|simpl; apply todo_of_names].
+  apply (resolve_order order3) in HR; [|simpl; apply todo_of_names].
   destruct HR as [ds [H1 [H2 H3]]]. simpl in H1, H2, H3.
   unfold ensure_notdef in H. injection H as Hr. rewrite <- Hr. simpl. rewrite H1, H2. split; [reflexivity | exact H3].
+Qed.
+
+(* ------------------------------------------------------------------ shape of the final order *)
+Definition keep (gs : ctx) (n : name) : bool := is_export gs n && negb (name_eqb n NOTDEF).
+
+Lemma filter_filter {A} (f g : A -> bool) l :
+  filter f (filter g l) = filter (fun x => g x && f x) l.
+Proof.
+  induction l as [|x t IH]; simpl; [reflexivity|].
+  destruct (g x); simpl; [destruct (f x); rewrite IH; reflexivity | exact IH].
+Qed.
+
+Lemma filter_id {A} (f : A -> bool) l : (forall x, In x l -> f x = true) -> filter f l = l.
+Proof.
+  induction l as [|x t IH]; intro H; simpl; [reflexivity|].
+  rewrite (H x (or_introl eq_refl)). f_equal. apply IH. intros y Hy. apply H. right. exact Hy.
+Qed.
+
+Lemma final_order_shape : forall fl prelim gs r,
+  glyph_order_work fl prelim gs = Some r ->
+  r_order r = NOTDEF :: filter (keep gs) prelim ++ r_derived r.
+Proof.
+  intros fl prelim gs r H. destruct (gow_order _ _ _ _ H) as [Ho Hd].
+  rewrite Ho, notdef_first_spec. f_equal. rewrite filter_app. f_equal.
+  - rewrite filter_filter. apply filter_ext_in'. intros x _. unfold keep.
+    rewrite (name_eqb_sym NOTDEF x). reflexivity.
+  - apply filter_id. intros x Hx. apply negb_true_iff, name_eqb_neq.
+    apply derivation_suffixed in Hd. rewrite Forall_forall in Hd.
+    destruct (Hd x Hx) as [b [i [_ ->]]]. intro E. symmetry in E. exact (suffixed_ne_notdef _ _ E).
+Qed.
+
+Lemma final_order_NoDup : forall fl prelim gs r,
+  NoDup prelim -> glyph_order_work fl prelim gs = Some r -> NoDup (r_order r).
+Proof.
+  intros fl prelim gs r Hn H. rewrite (final_order_shape _ _ _ _ H).
+  destruct (gow_order _ _ _ _ H) as [_ Hd]. pose proof (derivation_fresh _ _ _ Hd) as [Hd1 Hd2].
+  pose proof (derivation_suffixed _ _ _ Hd) as Hs. rewrite Forall_forall in Hs.
+  constructor.
+  - rewrite in_app_iff, filter_In. unfold keep. intros [[_ Hk]|Hk].
+    + rewrite name_eqb_refl in Hk. rewrite andb_false_r in Hk. discriminate.
+    + destruct (Hs _ Hk) as [b [i [_ E]]]. symmetry in E. exact (suffixed_ne_notdef _ _ E).
+  - apply NoDup_app'; [apply NoDup_filter; exact Hn | exact Hd1|].
+    intros x Hx Hdx. apply (Hd2 _ Hdx). apply filter_In in Hx as [Hx Hk]. apply filter_In.
+    split; [exact Hx|]. unfold keep in Hk. apply andb_true_iff in Hk. tauto.
+Qed.
+
+Lemma final_order_In : forall fl prelim gs r n,
+  glyph_order_work fl prelim gs = Some r ->
+  (In n (r_order r) <->
+   n = NOTDEF \/ (In n prelim /\ is_export gs n = true /\ n <> NOTDEF) \/ In n (r_derived r)).
+Proof.
+  intros fl prelim gs r n H. rewrite (final_order_shape _ _ _ _ H). simpl.
+  rewrite in_app_iff, filter_In. unfold keep. rewrite andb_true_iff, negb_true_iff, name_eqb_neq.
+  split; [intros [<-|[?|?]] | intros [->|[?|?]]]; tauto.
+Qed.
+
+(* ------------------------------------------------------------------ post names *)
+Lemma assoc_None_keys {V} : forall (m : list (name * V)) k, assoc m k = None <-> ~ In k (keys m).
+Proof.
+  induction m as [|[k' v] t IH]; intro k; simpl; [tauto|].
+  destruct (name_eqb k' k) eqn:E.
+  - apply name_eqb_eq in E. split; [discriminate | intro H; exfalso; apply H; left; exact E].
+  - apply name_eqb_neq in E. rewrite IH. tauto.
+Qed.
+
+Lemma post_go_spec : forall rename order seen,
+  length (post_names_go rename seen order) = length order /\
+  NoDup (post_names_go rename seen order) /\
+  (forall x, In x (post_names_go rename seen order) -> ~ In x (keys seen)).
+Proof.
+  intros rename. induction order as [|g t IH]; intro seen; cbn [post_names_go]; cbv zeta.
+  - repeat split; [constructor | intros x []].
+  - match goal with |- context [filter is_ps_char ?X] => set (nm := filter is_ps_char X) end.
+    destruct (assoc seen nm) as [n|] eqn:A.
+    + set (n' := first_free (S (length seen)) (keys seen) nm n).
+      assert (~ In (suffixed nm n') (keys seen)) as Hfree.
+      { apply mem_false. apply first_free_spec_ge. unfold keys. rewrite map_length. lia. }
+      destruct (IH ((suffixed nm n', 1) :: (nm, N.succ n') :: seen)) as [IH1 [IH2 IH3]].
+      simpl in IH3. repeat split.
+      * cbn [length]. rewrite IH1. reflexivity.
+      * constructor; [|exact IH2]. intro HI. apply (IH3 _ HI). left. reflexivity.
+      * intros x [<-|Hx]; [exact Hfree|]. intro Hk. apply (IH3 _ Hx). right. right. exact Hk.
+    + apply assoc_None_keys in A.
+      destruct (IH ((nm, 1) :: seen)) as [IH1 [IH2 IH3]]. simpl in IH3. repeat split.
+      * cbn [length]. rewrite IH1. reflexivity.
+      * constructor; [|exact IH2]. intro HI. apply (IH3 _ HI). left. reflexivity.
+      * intros x [<-|Hx]; [exact A|]. intro Hk. apply (IH3 _ Hx). right. exact Hk.
+Qed.
+
+Lemma post_names_one_to_one : forall rename order, NoDup order ->
+  length (post_names rename order) = length order /\ NoDup (post_names rename order).
+Proof.
+  intros [m|] order Hn; simpl.
+  - destruct (post_go_spec m order []) as [H1 [H2 _]]. split; assumption.
+  - split; [reflexivity | exact Hn].
+Qed.
+
+(* when nothing needs stripping and the renamed names are distinct, post carries exactly them *)
+Lemma post_go_clean : forall rename order seen,
+  let target := map (fun g => match assoc rename g with Some r => r | None => g end) order in
+  Forall (fun nm => forallb is_ps_char nm = true) target ->
+  NoDup target -> (forall x, In x target -> ~ In x (keys seen)) ->
+  post_names_go rename seen order = target.
+Proof.
+  intros rename. induction order as [|g t IH]; intros seen target Hc Hn Hs; [reflexivity|].
+  subst target. simpl in *. inversion Hc as [|? ? Hc1 Hc2]; subst. inversion Hn as [|? ? Hn1 Hn2]; subst.
+  set (raw := match assoc rename g with Some r => r | None => g end) in *.
+  assert (filter is_ps_char raw = raw) as ->.
+  { apply filter_id. rewrite forallb_forall in Hc1. exact Hc1. }
+  assert (assoc seen raw = None) as -> by (apply assoc_None_keys; apply Hs; left; reflexivity).
+  f_equal. apply IH; try assumption. intros x Hx [<-|Hk]; [contradiction|].
+  eapply Hs; [right; exact Hx | exact Hk].
+Qed.
+
+(* ------------------------------------------------------------------ cmap *)
+Lemma pair_eqb_eq : forall a b, pair_eqb a b = true <-> a = b.
+Proof.
+  intros [a1 a2] [b1 b2]. unfold pair_eqb. simpl. rewrite andb_true_iff, !N.eqb_eq.
+  split; [intros [-> ->]; reflexivity | intro H; inversion H; tauto].
+Qed.
+
+Lemma pinsert_In : forall x y l, In y (pinsert x l) <-> y = x \/ In y l.
+Proof.
+  intros x y l. induction l as [|z t IH]; simpl; [intuition congruence|].
+  destruct (pair_eqb x z) eqn:E.
+  - apply pair_eqb_eq in E. subst. simpl. intuition congruence.
+  - destruct (pair_leb x z); simpl; [intuition congruence|]. rewrite IH. intuition congruence.
+Qed.
+
+Lemma sort_dedup_In : forall y l, In y (sort_dedup l) <-> In y l.
+Proof.
+  intros y l. induction l as [|x t IH]; simpl; [tauto|]. rewrite pinsert_In, IH. split; intros [?|?]; auto.
+Qed.
+
+
+Lemma cmap_conflict_false : forall ms, cmap_conflict ms = false ->
+  forall c g1 g2, In (c, g1) ms -> In (c, g2) ms -> g1 = g2.
+Proof.
+  intros ms H c g1 g2 H1 H2. unfold cmap_conflict in H.
+  destruct (N.eq_dec g1 g2) as [|Hne]; [assumption|]. exfalso.
+  assert (existsb (fun a => existsb (fun b => (fst a =? fst b) && negb (snd a =? snd b)) ms) ms = true) as Ht.
+  { apply existsb_exists. exists (c, g1). split; [exact H1|]. apply existsb_exists. exists (c, g2).
+    split; [exact H2|]. simpl. rewrite N.eqb_refl. simpl. apply negb_true_iff. apply N.eqb_neq. exact Hne. }
+  congruence.
+Qed.
+
+Lemma cmap_conflict_true : forall ms, cmap_conflict ms = true ->
+  exists c g1 g2, In (c, g1) ms /\ In (c, g2) ms /\ g1 <> g2.
+Proof.
+  intros ms H. unfold cmap_conflict in H. apply existsb_exists in H as [[c1 g1] [H1 H]].
+  apply existsb_exists in H as [[c2 g2] [H2 H]]. simpl in H. apply andb_true_iff in H as [Hc Hg].
+  apply N.eqb_eq in Hc. subst. apply negb_true_iff, N.eqb_neq in Hg. exists c2, g1, g2. tauto.
+Qed.
+
+Lemma cmap_build_spec : forall ms cm, cmap_build ms = Some cm ->
+  (forall p, In p cm <-> In p ms) /\
+  (forall c g1 g2, In (c, g1) cm -> In (c, g2) cm -> g1 = g2).
+Proof.
+  intros ms cm H. unfold cmap_build in H. destruct (cmap_conflict ms) eqn:E; [discriminate|].
+  inversion H; subst. split; [intro p; apply sort_dedup_In|].
+  intros c g1 g2 H1 H2. apply (proj1 (sort_dedup_In _ _)) in H1. apply (proj1 (sort_dedup_In _ _)) in H2.
+  eapply cmap_conflict_false; eassumption.
+Qed.
+
+Lemma cmap_build_none : forall ms, cmap_build ms = None <->
+  exists c g1 g2, In (c, g1) ms /\ In (c, g2) ms /\ g1 <> g2.
+Proof.
+  intros ms. unfold cmap_build. destruct (cmap_conflict ms) eqn:E.
+  - split; [intros _; apply cmap_conflict_true; exact E | reflexivity].
+  - split; [discriminate|]. intros [c [g1 [g2 [H1 [H2 Hne]]]]]. exfalso. apply Hne.
+    eapply cmap_conflict_false; eassumption.
+Qed.
+
+Lemma with_gids_In : forall order k i n,
+  In (i, n) (with_gids k order) <-> exists j, nth_error order j = Some n /\ i = k + N.of_nat j.
+Proof.
+  induction order as [|x t IH]; intros k i n; simpl.
+  - split; [intros [] | intros [[|j] [H _]]; discriminate].
+  - rewrite IH. split.
+    + intros [H|[j [H1 H2]]].
+      * inversion H; subst. exists 0%nat. split; [reflexivity | lia].
+      * exists (S j). split; [exact H1 | lia].
+    + intros [[|j] [H1 H2]]; simpl in H1.
+      * left. inversion H1; subst. f_equal. lia.
+      * right. exists j. split; [exact H1 | lia].
+Qed.
+
+Lemma cmap_mappings_In : forall order c cp g,
+  In (cp, g) (cmap_mappings order c) <->
+  exists j n gl, nth_error order j = Some n /\ g = N.of_nat j /\ lookup c n = Some gl /\ In cp (g_cps gl).
+Proof.
+  intros order c cp g. unfold cmap_mappings. rewrite in_flat_map. split.
+  - intros [[i n] [Hin H]]. simpl in H. apply with_gids_In in Hin as [j [Hj Hi]].
+    destruct (lookup c n) as [gl|] eqn:L; [|destruct H].
+    apply in_map_iff in H as [cp' [E Hcp]]. inversion E; subst.
+    exists j, n, gl. repeat split; try assumption; try lia.
+  - intros [j [n [gl [Hj [-> [L Hcp]]]]]]. exists (N.of_nat j, n). split.
+    + apply with_gids_In. exists j. split; [exact Hj | lia].
+    + simpl. rewrite L. apply in_map_iff. exists cp. split; [reflexivity | exact Hcp].
+Qed.
+
+(* ------------------------------------------------------------------ backend jobs *)
+Lemma be_missing_nil : forall prelim gs final,
+  be_missing prelim gs final = [] <->
+  (forall n, In n final -> In n prelim -> is_export gs n = true).
+Proof.
+  intros prelim gs final. unfold be_missing. split.
+  - intros H n Hf Hp. destruct (is_export gs n) eqn:E; [reflexivity|]. exfalso.
+    assert (In n (filter (fun n => mem n prelim && negb (is_export gs n)) final)) as HI.
+    { apply filter_In. split; [exact Hf|]. rewrite E. simpl. rewrite andb_true_r. apply mem_In. exact Hp. }
+    rewrite H in HI. destruct HI.
+  - intro H. destruct (filter _ final) as [|x t] eqn:E; [reflexivity|]. exfalso.
+    assert (In x (filter (fun n => mem n prelim && negb (is_export gs n)) final)) as HI by (rewrite E; left; reflexivity).
+    apply filter_In in HI as [Hf Hc]. apply andb_true_iff in Hc as [Hp He]. apply mem_In in Hp.
+    rewrite (H x Hf Hp) in He. discriminate.
+Qed.
+
+(* ------------------------------------------------------------------ UFO / Glyphs front ends *)
+Lemma filter_perm {A} (f : A -> bool) l1 l2 : Permutation l1 l2 -> Permutation (filter f l1) (filter f l2).
+Proof.
+  induction 1 as [|x l1 l2 P IH|x y l|l1 l2 l3 P1 IH1 P2 IH2]; simpl.
+  - constructor.
+  - destruct (f x); [constructor|]; exact IH.
+  - destruct (f x), (f y); try apply Permutation_refl. apply perm_swap.
+  - eapply perm_trans; eassumption.
+Qed.
+
+Lemma ufo_prelim_perm_invariant : forall declared names names',
+  NoDup names -> Permutation names names' ->
+  ufo_prelim declared names = ufo_prelim declared names'.
+Proof.
+  intros declared names names' Hn P.
+  assert (NoDup names') as Hn' by (eapply Permutation_NoDup; eassumption).
+  rewrite !ufo_prelim_spec by assumption. f_equal.
+  - f_equal. apply filter_ext_in'. intros x _. apply mem_ext. intro y.
+    split; intro H; [eapply Permutation_in; eassumption | eapply Permutation_in; [apply Permutation_sym|]; eassumption].
+  - apply sort_names_perm_invariant. apply filter_perm. exact P.
+Qed.
+
+Lemma ufo_final_order : forall fl declared gs r,
+  NoDup (map g_name gs) ->
+  ufo_compile fl declared gs = Some r ->
+  r_order r = NOTDEF
+     :: filter (keep gs) (dedup [] (filter (fun n => mem n (map g_name gs)) declared))
+     ++ filter (keep gs) (sort_names (filter (fun n => negb (mem n declared)) (map g_name gs)))
+     ++ r_derived r.
+Proof.
+  intros fl declared gs r Hn H. unfold ufo_compile in H.
+  rewrite (final_order_shape _ _ _ _ H). rewrite ufo_prelim_spec by exact Hn.
+  rewrite filter_app, <- app_assoc. reflexivity.
+Qed.
+
+Lemma glyphs_final_order : forall fl declared gs r,
+  NoDup (map g_name gs) ->
+  glyphs_compile fl declared gs = Some r ->
+  r_order r = NOTDEF
+     :: filter (keep gs) (dedup [] (filter (fun n => mem n (map g_name gs)) declared))
+     ++ filter (keep gs) (filter (fun n => negb (mem n declared)) (map g_name gs))
+     ++ r_derived r.
+Proof.
+  intros fl declared gs r Hn H. unfold glyphs_compile in H.
+  rewrite (final_order_shape _ _ _ _ H). rewrite glyphs_prelim_spec by exact Hn.
+  rewrite filter_app, <- app_assoc. reflexivity.
+Qed.
+
+Lemma is_export_lookup : forall gs n g, lookup gs n = Some g -> is_export gs n = g_export g.
+Proof. intros gs n g H. unfold is_export. rewrite H. reflexivity. Qed.
+
+(* outside the failing class no backend job is missing *)
+Lemma no_missing_job_outside : forall fl prelim gs r,
+  (forall n, In n prelim -> In n (map g_name gs)) ->
+  glyph_order_work fl prelim gs = Some r ->
+  (forall n g, lookup gs n = Some g -> g_export g = false ->
+     n <> NOTDEF /\ forall b i, is_export gs b = true -> In b (map g_name gs) -> n <> suffixed b i) ->
+  be_missing prelim gs (r_order r) = [].
+Proof.
+  intros fl prelim gs r Hsub H Hcls. apply be_missing_nil. intros n Hf Hp.
+  pose proof (Hsub _ Hp) as Hnm. apply lookup_Some_iff in Hnm as [g L].
+  rewrite (is_export_lookup _ _ _ L). destruct (g_export g) eqn:E; [reflexivity|]. exfalso.
+  destruct (Hcls _ _ L E) as [Hnd Hsf].
+  apply (final_order_In _ _ _ _ n H) in Hf. destruct Hf as [->|[[_ [He _]]|Hd]].
+  - apply Hnd. reflexivity.
+  - rewrite (is_export_lookup _ _ _ L) in He. congruence.
+  - destruct (gow_order _ _ _ _ H) as [_ Hder]. apply derivation_suffixed in Hder.
+    rewrite Forall_forall in Hder. destruct (Hder _ Hd) as [b [i [Hb ->]]].
+    apply filter_In in Hb as [Hb1 Hb2]. exact (Hsf b i Hb2 (Hsub _ Hb1) eq_refl).
+Qed.
+
+(* a font came out: no glyph the source marks non-export is in the glyph set *)
+Lemma nonexport_not_in_order : forall fl prelim gs r cm,
+  (forall n, In n (map g_name gs) -> In n prelim) ->
+  compile fl prelim gs = Font r cm ->
+  forall n g, lookup gs n = Some g -> g_export g = false -> ~ In n (r_order r).
+Proof.
+  intros fl prelim gs r cm Hsup H n g L E Hin. unfold compile in H.
+  destruct (glyph_order_work fl prelim gs) as [r'|] eqn:HG; [|discriminate].
+  destruct (be_missing prelim gs (r_order r')) eqn:HB; destruct (cmap_of r'); try discriminate.
+  inversion H; subst. rewrite be_missing_nil in HB.
+  assert (In n prelim) as Hp by (apply Hsup; apply lookup_Some_iff; eexists; exact L).
+  specialize (HB n Hin Hp). rewrite (is_export_lookup _ _ _ L) in HB. congruence.
+Qed.
+
+(* ------------------------------------------------------------------ code points survive *)
+Section SameOn.
+  Context {A : Type} (f : glyph -> A).
+  Hypothesis f_with_comps : forall g a b, f (with_comps g a b) = f g.
+
+  Definition at_ (c : ctx) (n : name) : option A := option_map f (lookup c n).
+  Definition same_on (c c' : ctx) : Prop := forall n, at_ c' n = at_ c n.
+
+  Lemma at_set : forall c g n, at_ (ctx_set c g) n = if name_eqb (g_name g) n then Some (f g) else at_ c n.
+  Proof. intros c g n. unfold at_. rewrite lookup_ctx_set. destruct (name_eqb (g_name g) n); reflexivity. Qed.
+
+  Lemma same_on_refl : forall c, same_on c c.
+  Proof. intros c n. reflexivity. Qed.
+
+  Lemma same_on_trans : forall a b c, same_on a b -> same_on b c -> same_on a c.
+  Proof. intros a b c H1 H2 n. rewrite H2. apply H1. Qed.
+
+  Lemma same_on_set : forall c g, at_ c (g_name g) = Some (f g) -> same_on c (ctx_set c g).
+  Proof.
+    intros c g H n. rewrite at_set. destruct (name_eqb (g_name g) n) eqn:E; [|reflexivity].
+    apply name_eqb_eq in E. subst. symmetry. exact H.
+  Qed.
+
+  Lemma same_on_set_lookup : forall c n g a b,
+    lookup c n = Some g -> same_on c (ctx_set c (with_comps g a b)).
+  Proof.
+    intros c n g a b H. apply same_on_set. rewrite f_with_comps. simpl. unfold at_.
+    rewrite (lookup_name _ _ _ H), H. reflexivity.
+  Qed.
+
+  Lemma prune_same_on : forall c, same_on c (prune c).
+  Proof.
+    intros c n. unfold at_, prune. rewrite lookup_map by reflexivity.
+    destruct (lookup c n); simpl; [rewrite f_with_comps|]; reflexivity.
+  Qed.
+
+  Lemma fold_same_on : forall (step : ctx -> name -> ctx) l c0,
+    (forall c n, same_on c0 c -> same_on c0 (step c n)) ->
+    forall c, same_on c0 c -> same_on c0 (fold_left step l c).
+  Proof.
+    intros step l c0 Hs. induction l as [|x t IH]; intros c Hc; simpl; [exact Hc|].
+    apply IH. apply Hs. exact Hc.
+  Qed.
+
+  Lemma flatten_all_same_on : forall c, same_on c (flatten_all c).
+  Proof.
+    intro c0. unfold flatten_all. apply fold_same_on; [|apply same_on_refl].
+    intros c n Hc. unfold flatten_step. destruct (lookup c0 n) as [g|] eqn:L; [|exact Hc].
+    destruct (has_nonexport_comp c g); [|exact Hc].
+    eapply same_on_trans; [exact Hc|]. apply same_on_set. unfold flatten_one. rewrite f_with_comps. simpl.
+    rewrite Hc. unfold at_. rewrite (lookup_name _ _ _ L), L. reflexivity.
+  Qed.
+
+  Lemma drop_unretained_same_on : forall order c, same_on c (drop_unretained order c).
+  Proof.
+    intros order c0. unfold drop_unretained. apply fold_same_on; [|apply same_on_refl].
+    intros c n Hc. destruct (lookup c n) as [g|] eqn:L; [|exact Hc].
+    destruct (existsb _ (g_comps g)); [|exact Hc].
+    eapply same_on_trans; [exact Hc|]. unfold to_contours. eapply same_on_set_lookup. exact L.
+  Qed.
+
+  Lemma optional_same_on : forall fl order c, same_on c (optional_transformations fl order c).
+  Proof.
+    intros fl order c0. unfold optional_transformations.
+    destruct (fl_decompose fl); [|destruct (fl_flatten fl); [|apply same_on_refl]].
+    - unfold decompose_all. apply fold_same_on; [|apply same_on_refl].
+      intros c n Hc. destruct (lookup c n) as [g|] eqn:L; [|exact Hc].
+      destruct (g_comps g); [exact Hc|].
+      eapply same_on_trans; [exact Hc|]. unfold to_contours. eapply same_on_set_lookup. exact L.
+    - unfold flatten_nested. apply fold_same_on; [|apply same_on_refl].
+      intros c n Hc. destruct (lookup c n) as [g|] eqn:L; [|exact Hc].
+      destruct (g_comps g) eqn:G; [exact Hc|].
+      eapply same_on_trans; [exact Hc|]. eapply same_on_set_lookup. exact L.
+  Qed.
+End SameOn.
+
+Definition cps_at := at_ g_cps.
+
+Lemma cps_with_comps : forall g a b, g_cps (with_comps g a b) = g_cps g.
+Proof. reflexivity. Qed.
+
+Lemma resolve_cps : forall o0 c2 fuel d todo s p s',
+  (forall t, In t todo -> In (g_name (snd t)) o0 /\ cps_at c2 (g_name (snd t)) = Some (g_cps (snd t))) ->
+  (forall n, In n o0 -> In n (st_order s)) ->
+  (forall n, In n (st_derived s) -> In n (st_order s) /\ ~ In n o0) ->
+  (forall n, In n o0 -> cps_at (st_ctx s) n = cps_at c2 n) ->
+  (forall n, In n (st_derived s) -> cps_at (st_ctx s) n = Some []) ->
+  resolve fuel d s p todo = Some s' ->
+  (forall n, In n o0 -> cps_at (st_ctx s') n = cps_at c2 n) /\
+  (forall n, In n (st_derived s') -> cps_at (st_ctx s') n = Some []).
+Proof.
+  intros o0 c2. induction fuel as [|f IH]; intros d todo s p s' Ht Ho Hd Hi Hii H.
+  - destruct todo as [|[o g] rest]; simpl in H; [|discriminate]. inversion H; subst. tauto.
+  - destruct todo as [|[o g] rest]; simpl in H; [inversion H; subst; tauto|].
+    destruct (Ht (o, g) (or_introl eq_refl)) as [Hg1 Hg2]. simpl in Hg1, Hg2.
+    assert (forall t, In t rest -> In (g_name (snd t)) o0 /\ cps_at c2 (g_name (snd t)) = Some (g_cps (snd t))) as Hrest
+      by (intros t Hin; apply Ht; right; exact Hin).
+    destruct (existsb (reaches d (st_ctx s) p) (g_comps g)).
+    + eapply IH; [| | | | |exact H]; try assumption.
+      intros t Hin. apply in_app_or in Hin as [Hin|[<-|[]]]; [apply Hrest; exact Hin | split; assumption].
+    + destruct o.
+      * eapply IH; [exact Hrest| | | | |exact H]; simpl; try assumption.
+        -- intros n Hn. unfold cps_at. rewrite at_set. simpl.
+           destruct (name_eqb (g_name g) n) eqn:E; [|apply Hi; exact Hn].
+           apply name_eqb_eq in E. subst n. symmetry. exact Hg2.
+        -- intros n Hn. unfold cps_at. rewrite at_set. simpl.
+           destruct (name_eqb (g_name g) n) eqn:E; [|apply Hii; exact Hn].
+           apply name_eqb_eq in E. subst n. exfalso. apply (proj2 (Hd _ Hn)). exact Hg1.
+      * pose proof (name_for_derivative_fresh (g_name g) (st_order s)) as Hfresh.
+        set (sn := name_for_derivative (g_name g) (st_order s)) in *.
+        assert (sn <> g_name g) as Hne by (intro E; apply Hfresh; rewrite E; apply Ho; exact Hg1).
+        eapply IH; [exact Hrest| | | | |exact H]; unfold move_contours; fold sn; simpl.
+        -- intros n Hn. rewrite (iset_insert_fresh _ _ Hfresh). apply in_or_app. left. apply Ho. exact Hn.
+        -- intros n Hn. rewrite (iset_insert_fresh _ _ Hfresh). apply in_app_or in Hn as [Hn|[<-|[]]].
+           ++ destruct (Hd _ Hn) as [H1 H2]. split; [apply in_or_app; left; exact H1 | exact H2].
+           ++ split; [apply in_or_app; right; left; reflexivity|]. intro Hin. apply Hfresh. apply Ho. exact Hin.
+        -- intros n Hn. unfold cps_at. rewrite !at_set. simpl.
+           destruct (name_eqb (g_name g) n) eqn:E.
+           ++ apply name_eqb_eq in E. subst n. symmetry. exact Hg2.
+           ++ destruct (name_eqb sn n) eqn:E2; [|apply Hi; exact Hn].
+              apply name_eqb_eq in E2. subst n. exfalso. apply Hfresh. apply Ho. exact Hn.
+        -- intros n Hn. unfold cps_at. rewrite !at_set. simpl.
+           apply in_app_or in Hn as [Hn|[<-|[]]].
+           ++ destruct (name_eqb (g_name g) n) eqn:E.
+              { apply name_eqb_eq in E. subst n. exfalso. apply (proj2 (Hd _ Hn)). exact Hg1. }
+              destruct (name_eqb sn n) eqn:E2; [reflexivity|]. apply Hii. exact Hn.
+           ++ destruct (name_eqb (g_name g) sn) eqn:E; [apply name_eqb_eq in E; congruence|].
+              rewrite name_eqb_refl. reflexivity.
+Qed.
+
+Lemma todo_of_cps : forall ps snap order t, In t (todo_of ps snap order) ->
+  In (g_name (snd t)) order /\ cps_at snap (g_name (snd t)) = Some (g_cps (snd t)).
+Proof.
+  intros ps snap order t Ht. unfold todo_of in Ht.
+  apply in_flat_map in Ht as [n [Hn Ht]]. destruct (lookup snap n) as [g|] eqn:L; [|destruct Ht].
+  destruct (is_mixed g); [|destruct Ht]. destruct Ht as [<-|[]]. simpl.
+  rewrite (lookup_name _ _ _ L). split; [exact Hn|]. unfold cps_at, at_. rewrite L. reflexivity.
+Qed.
+
+(* code points in the final IR: exported source glyphs keep theirs, added glyphs have none *)
+Lemma gow_cps : forall fl prelim gs r,
+  glyph_order_work fl prelim gs = Some r ->
+  let o0 := filter (is_export gs) prelim in
+  (forall n, In n o0 -> cps_at (r_ctx r) n = cps_at gs n) /\
+  (forall n, In n (r_derived r) -> cps_at (r_ctx r) n = Some []) /\
+  (~ In NOTDEF o0 -> cps_at (r_ctx r) NOTDEF = Some []).
+Proof.
+  intros fl prelim gs r H o0. pose proof H as H0. unfold glyph_order_work in H.
+  set (c1 := flatten_all (prune gs)) in *.
+  assert (same_exp gs c1) as Hexp.
+  { eapply same_exp_trans; [apply prune_same_exp | apply flatten_all_same_exp]. }
+  assert (filter (is_export c1) prelim = o0) as Hf.
+  { apply filter_ext_in'. intros x _. apply same_exp_is_export. exact Hexp. }
+  rewrite Hf in H.
+  assert (same_on g_cps gs c1) as Hc1.
+  { eapply same_on_trans; [apply prune_same_on; exact cps_with_comps | apply flatten_all_same_on; exact cps_with_comps]. }
+  set (c2 := drop_unretained o0 c1) in *.
+  assert (same_on g_cps c1 c2) as Hc2 by (apply drop_unretained_same_on; exact cps_with_comps).
+  match type of H with match ?R with _ => _ end = _ => destruct R as [s|] eqn:HR end; [|discriminate].
+  pose proof HR as HR2. apply (resolve_order o0) in HR2; [|simpl; apply todo_of_names].
+  destruct HR2 as [ds [HO [HD Hder]]]. simpl in HO, HD.
+  pose proof (derivation_fresh _ _ _ Hder) as [_ Hfr].
+  apply (resolve_cps o0 c2) in HR; simpl; try tauto.
+  2:{ intros t Ht. destruct (todo_of_cps _ _ _ _ Ht) as [T1 T2]. split; [exact T1|].
+      unfold cps_at. rewrite Hc2. exact T2. }
+  destruct HR as [R1 R2].
+  unfold ensure_notdef in H. injection H as Hr. rewrite <- Hr. simpl.
+  set (c3 := optional_transformations fl (st_order s) (st_ctx s)).
+  assert (same_on g_cps (st_ctx s) c3) as Hc3 by (apply optional_same_on; exact cps_with_comps).
+  assert (forall n, n <> NOTDEF ->
+            cps_at (if mem NOTDEF (st_order s) then c3 else ctx_set c3 synthetic_notdef) n = cps_at (st_ctx s) n) as Hfin.
+  { intros n Hn. destruct (mem NOTDEF (st_order s)); [apply Hc3|].
+    unfold cps_at. rewrite at_set. change (g_name synthetic_notdef) with NOTDEF.
+    destruct (name_eqb NOTDEF n) eqn:E; [apply name_eqb_eq in E; congruence | apply Hc3]. }
+  assert (forall n, In n (st_order s) ->
+            cps_at (if mem NOTDEF (st_order s) then c3 else ctx_set c3 synthetic_notdef) n = cps_at (st_ctx s) n) as Hfin2.
+  { intros n Hn. destruct (list_eq_dec N.eq_dec n NOTDEF) as [->|Hne]; [|apply Hfin; exact Hne].
+    apply mem_In in Hn. rewrite Hn. apply Hc3. }
+  split; [|split].
+  - intros n Hn. rewrite Hfin2 by (rewrite HO; apply in_or_app; left; exact Hn).
+    rewrite (R1 _ Hn). unfold cps_at. rewrite Hc2, Hc1. reflexivity.
+  - intros n Hn. rewrite HD in *. rewrite Hfin2 by (rewrite HO; apply in_or_app; right; exact Hn).
+    apply R2. exact Hn.
+  - intro Hno. assert (mem NOTDEF (st_order s) = false) as ->.
+    { apply mem_false. rewrite HO. intro Hin. apply in_app_or in Hin as [Hin|Hin]; [contradiction|].
+      apply derivation_suffixed in Hder. rewrite Forall_forall in Hder.
+      destruct (Hder _ Hin) as [b [i [_ E]]]. symmetry in E. exact (suffixed_ne_notdef _ _ E). }
+    unfold cps_at. rewrite at_set. change (g_name synthetic_notdef) with NOTDEF. rewrite name_eqb_refl. reflexivity.
+Qed.
+
+Lemma cps_at_Some : forall c n l, cps_at c n = Some l <-> exists g, lookup c n = Some g /\ g_cps g = l.
+Proof.
+  intros c n l. unfold cps_at, at_. destruct (lookup c n) as [g|]; simpl.
+  - split; [intro H; inversion H; eauto | intros [g' [H1 H2]]; inversion H1; subst; reflexivity].
+  - split; [discriminate | intros [g' [H1 _]]; discriminate].
+Qed.
+
+(* cmap against the SOURCE: c -> g iff glyph g of the final order is an exported source glyph carrying c *)
+Lemma cmap_source : forall fl prelim gs r cm,
+  (forall n, In n (map g_name gs) -> In n prelim) ->
+  compile fl prelim gs = Font r cm ->
+  forall c g, In (c, g) cm <->
+    exists j n gl, nth_error (r_order r) j = Some n /\ g = N.of_nat j /\
+                   lookup gs n = Some gl /\ g_export gl = true /\ In c (g_cps gl).
+Proof.
+  intros fl prelim gs r cm Hsup H c g. unfold compile in H.
+  destruct (glyph_order_work fl prelim gs) as [r'|] eqn:HG; [|discriminate].
+  destruct (be_missing prelim gs (r_order r')); destruct (cmap_of r') eqn:C; try discriminate.
+  inversion H; subst. clear H. unfold cmap_of in C. destruct (cmap_build_spec _ _ C) as [H1 _].
+  rewrite H1, cmap_mappings_In. destruct (gow_cps _ _ _ _ HG) as [K1 [K2 K3]].
+  set (o0 := filter (is_export gs) prelim) in *.
+  split.
+  - intros [j [n [gl' [Hj [Hg [L Hc]]]]]].
+    assert (In n o0) as Hn0.
+    { destruct (in_dec (list_eq_dec N.eq_dec) n o0) as [|Hno]; [assumption|]. exfalso.
+      assert (cps_at (r_ctx r) n = Some []) as Hz.
+      { apply nth_error_In in Hj. apply (final_order_In _ _ _ _ n HG) in Hj.
+        destruct Hj as [->|[[Hp [He _]]|Hd]]; [apply K3; exact Hno | | apply K2; exact Hd].
+        exfalso. apply Hno. apply filter_In. tauto. }
+      apply cps_at_Some in Hz as [g0 [L0 Hz]]. rewrite L in L0. inversion L0; subst. rewrite Hz in Hc. destruct Hc. }
+    assert (cps_at gs n = Some (g_cps gl')) as Hs.
+    { rewrite <- (K1 _ Hn0). apply cps_at_Some. eauto. }
+    apply cps_at_Some in Hs as [gl [Lg Hcp]]. exists j, n, gl. repeat split; try assumption.
+    + apply filter_In in Hn0 as [_ He]. rewrite (is_export_lookup _ _ _ Lg) in He. exact He.
+    + rewrite Hcp. exact Hc.
+  - intros [j [n [gl [Hj [Hg [L [He Hc]]]]]]].
+    assert (In n o0) as Hn0.
+    { apply filter_In. split; [apply Hsup; apply lookup_Some_iff; eauto|].
+      rewrite (is_export_lookup _ _ _ L). exact He. }
+    assert (cps_at (r_ctx r) n = Some (g_cps gl)) as Hs.
+    { rewrite (K1 _ Hn0). apply cps_at_Some. eauto. }
+    apply cps_at_Some in Hs as [gl' [L' Hcp]]. exists j, n, gl'. repeat split; try assumption.
+    rewrite Hcp. exact Hc.
+Qed.
+
+(* ------------------------------------------------------------------ component depth *)
+Lemma max_opt_Some : forall l m, max_opt l = Some m ->
+  forall x, In x l -> exists a, x = Some a /\ (a <= m)%nat.
+Proof.
+  induction l as [|[a|] t IH]; intros m H x Hx; simpl in H; [destruct Hx | | discriminate H].
+  destruct (max_opt t) as [b|] eqn:E; [|discriminate]. inversion H; subst.
+  destruct Hx as [<-|Hx]; [exists a; split; [reflexivity | lia]|].
+  destruct (IH b eq_refl x Hx) as [a' [-> Ha]]. exists a'. split; [reflexivity | lia].
+Qed.
+
+Lemma depth_lt_fuel : forall f c n d, depth f c n = Some d -> (d < f)%nat.
+Proof.
+  induction f as [|f IH]; intros c n d H; cbn [depth] in H; [discriminate|].
+  destruct (lookup c n) as [g|]; [|discriminate]. destruct (g_comps g) as [|b cs] eqn:G.
+  - inversion H. lia.
+  - destruct (max_opt (map (depth f c) (b :: cs))) as [m|] eqn:M; [|simpl in H; discriminate H]. simpl in H. inversion H; subst.
+    destruct (max_opt_Some _ _ M (depth f c b) (or_introl eq_refl)) as [a [Ha Hle]].
+    (* m is attained by some element or is 0 *)
+    assert (forall l m, max_opt l = Some m -> m = O \/ In (Some m) l) as Hatt.
+    { clear. induction l as [|[a|] t IHl]; intros m H; simpl in H; [inversion H; left; reflexivity | | discriminate H].
+      destruct (max_opt t) as [b|] eqn:E; [|discriminate]. inversion H; subst.
+      destruct (Nat.max_spec a b) as [[_ ->]|[_ ->]].
+      - destruct (IHl b eq_refl) as [->|Hin]; [left; reflexivity | right; right; exact Hin].
+      - right. left. reflexivity. }
+    pose proof (IH _ _ _ Ha) as Hf1.
+    destruct (Hatt _ _ M) as [->|Hin]; [lia|].
+    apply in_map_iff in Hin as [x [Hx _]]. apply IH in Hx. lia.
+Qed.
+
+Lemma depth_mono : forall f c n d, depth f c n = Some d -> forall f', (f <= f')%nat -> depth f' c n = Some d.
+Proof.
+  induction f as [|f IH]; intros c n d H f' Hf; cbn [depth] in H; [discriminate|].
+  destruct f' as [|f']; [lia|]. cbn [depth].
+  destruct (lookup c n) as [g|]; [|discriminate]. destruct (g_comps g) as [|b cs] eqn:G; [exact H|].
+  destruct (max_opt (map (depth f c) (b :: cs))) as [m|] eqn:M; [|simpl in H; discriminate H].
+  assert (map (depth f' c) (b :: cs) = map (depth f c) (b :: cs)) as ->; [|rewrite M; exact H].
+  apply map_ext_in. intros x Hx.
+  destruct (max_opt_Some _ _ M (depth f c x) (in_map _ _ _ Hx)) as [a [Ha _]].
+  rewrite Ha. apply (IH c x a Ha). lia.
+Qed.
+
+Lemma depth_comp_lt : forall f c n g b d,
+  lookup c n = Some g -> In b (g_comps g) -> depth f c n = Some d ->
+  exists d', depth f c b = Some d' /\ (d' < d)%nat.
+Proof.
+  intros f c n g b d L Hb H. destruct f as [|f]; cbn [depth] in H; [discriminate|].
+  rewrite L in H. destruct (g_comps g) as [|b0 cs] eqn:G; [destruct Hb|].
+  destruct (max_opt (map (depth f c) (b0 :: cs))) as [m|] eqn:M; [|simpl in H; discriminate H]. simpl in H. inversion H; subst.
+  destruct (max_opt_Some _ _ M (depth f c b) (in_map _ _ _ Hb)) as [a [Ha Hle]].
+  exists a. split; [apply (depth_mono _ _ _ _ Ha); lia | lia].
+Qed.
+
+(* ------------------------------------------------------------------ flatten_all: only exported components remain *)
+Lemma fold_left_flat_map {A B C} (f : A -> B -> A) (h : C -> list B) l a :
+  fold_left f (flat_map h l) a = fold_left (fun a x => fold_left f (h x) a) l a.
+Proof.
+  revert a. induction l as [|x t IH]; intro a; simpl; [reflexivity|].
+  rewrite fold_left_app. apply IH.
+Qed.
+
+Definition closed (c : ctx) : Prop :=
+  forall n g b, lookup c n = Some g -> In b (g_comps g) -> exists_in c b = true.
+
+Lemma exists_in_prune : forall c n, exists_in (prune c) n = exists_in c n.
+Proof.
+  intros c n. unfold exists_in, prune. rewrite lookup_map by reflexivity. destruct (lookup c n); reflexivity.
+Qed.
+
+Lemma prune_closed : forall c, closed (prune c).
+Proof.
+  intros c n g b L Hb. unfold prune in L. rewrite lookup_map in L by reflexivity.
+  destruct (lookup c n) as [g0|]; [|discriminate]. simpl in L. inversion L; subst. simpl in Hb.
+  apply filter_In in Hb as [_ Hb]. rewrite exists_in_prune. exact Hb.
+Qed.
+
+(* every component is an exported glyph that exists *)
+Definition clean (c0 c : ctx) (n : name) : Prop :=
+  forall g b, lookup c n = Some g -> In b (g_comps g) -> is_export c0 b = true /\ exists_in c0 b = true.
+
+Lemma same_exp_exists_in : forall c c' n, same_exp c c' -> exists_in c' n = exists_in c n.
+Proof.
+  intros c c' n H. specialize (H n). unfold expo, exists_in in *.
+  destruct (lookup c' n), (lookup c n); simpl in H; congruence.
+Qed.
+
+Definition dlt (c0 : ctx) (F : nat) (n : name) (d : nat) : Prop :=
+  exists d', depth F c0 n = Some d' /\ (d' < d)%nat.
+
+Lemma flatten_step_inv : forall c0 F d c n done,
+  closed c0 ->
+  depth F c0 n = Some d ->
+  same_exp c0 c ->
+  (forall m, ~ dlt c0 F m d -> ~ In m done -> lookup c m = lookup c0 m) ->
+  (forall m, dlt c0 F m d \/ In m done -> clean c0 c m) ->
+  ~ In n done ->
+  let c' := flatten_step c0 c n in
+  same_exp c0 c' /\
+  (forall m, ~ dlt c0 F m d -> ~ In m (n :: done) -> lookup c' m = lookup c0 m) /\
+  (forall m, dlt c0 F m d \/ In m (n :: done) -> clean c0 c' m).
+Proof.
+  intros c0 F d c n done Hcl Hd Hexp Hun Hcln Hnd c'. subst c'. unfold flatten_step.
+  assert (~ dlt c0 F n d) as Hnlt by (intros [d' [E Hlt]]; rewrite Hd in E; inversion E; lia).
+  destruct (lookup c0 n) as [g|] eqn:L.
+  2:{ (* n has a depth, so it exists *)
+      destruct F; simpl in Hd; [discriminate|]. rewrite L in Hd. discriminate. }
+  pose proof (Hun n Hnlt Hnd) as Lc. rewrite L in Lc.
+  destruct (has_nonexport_comp c g) eqn:HN.
+  - set (g' := flatten_one c g).
+    assert (g_name g' = n) as Hname by (unfold g', flatten_one; simpl; apply (lookup_name _ _ _ L)).
+    split; [|split].
+    + eapply same_exp_trans; [exact Hexp|]. apply same_exp_set. unfold g', flatten_one. simpl.
+      rewrite Hexp. unfold expo. rewrite (lookup_name _ _ _ L), L. reflexivity.
+    + intros m Hm Hmd. rewrite lookup_ctx_set, Hname.
+      destruct (name_eqb n m) eqn:E; [apply name_eqb_eq in E; subst; exfalso; apply Hmd; left; reflexivity|].
+      apply Hun; [exact Hm | intro; apply Hmd; right; assumption].
+    + intros m Hm gm b Lm Hb. rewrite lookup_ctx_set, Hname in Lm.
+      destruct (name_eqb n m) eqn:E.
+      * inversion Lm; subst gm. clear Lm. unfold g', flatten_one in Hb. simpl in Hb.
+        apply in_flat_map in Hb as [b0 [Hb0 Hb]].
+        destruct (depth_comp_lt _ _ _ _ _ _ L Hb0 Hd) as [d0 [Hd0 Hlt0]].
+        pose proof (Hcl _ _ _ L Hb0) as Hex0.
+        destruct (lookup c b0) as [r|] eqn:Lr.
+        -- destruct (g_export r) eqn:Er.
+           ++ destruct Hb as [<-|[]]. split; [|exact Hex0].
+              rewrite <- (same_exp_is_export _ _ b0 Hexp). unfold is_export. rewrite Lr. exact Er.
+           ++ apply (Hcln b0 (or_introl (ex_intro _ d0 (conj Hd0 Hlt0))) r b Lr Hb).
+        -- (* b0 exists in c0, hence in c *)
+           rewrite <- (same_exp_exists_in _ _ b0 Hexp) in Hex0. unfold exists_in in Hex0. rewrite Lr in Hex0. discriminate.
+      * assert (dlt c0 F m d \/ In m done) as Hm'.
+        { destruct Hm as [Hm|[Hm|Hm]]; [left; exact Hm | apply name_eqb_neq in E; congruence | right; exact Hm]. }
+        exact (Hcln m Hm' gm b Lm Hb).
+  - split; [exact Hexp|]. split.
+    + intros m Hm Hmd. apply Hun; [exact Hm | intro; apply Hmd; right; assumption].
+    + intros m [Hm|[<-|Hm]]; [apply Hcln; left; exact Hm | | apply Hcln; right; exact Hm].
+      intros gm b Lm Hb. rewrite Lc in Lm. inversion Lm; subst gm.
+      unfold has_nonexport_comp in HN.
+      assert (is_export c b = true) as He.
+      { destruct (is_export c b) eqn:E; [reflexivity|]. exfalso.
+        assert (existsb (fun b => negb (is_export c b)) (g_comps g) = true) as Ht
+          by (apply existsb_exists; exists b; split; [exact Hb | rewrite E; reflexivity]).
+        congruence. }
+      rewrite (same_exp_is_export _ _ b Hexp) in He. split; [exact He | exact (Hcl _ _ _ L Hb)].
+Qed.
+
+Lemma flatten_bucket_inv : forall c0 F d bucket,
+  closed c0 ->
+  NoDup bucket -> (forall n, In n bucket -> depth F c0 n = Some d) ->
+  forall c done,
+  same_exp c0 c ->
+  (forall m, ~ dlt c0 F m d -> ~ In m done -> lookup c m = lookup c0 m) ->
+  (forall m, dlt c0 F m d \/ In m done -> clean c0 c m) ->
+  (forall n, In n bucket -> ~ In n done) ->
+  let c' := fold_left (flatten_step c0) bucket c in
+  same_exp c0 c' /\
+  (forall m, ~ dlt c0 F m d -> ~ In m (rev bucket ++ done) -> lookup c' m = lookup c0 m) /\
+  (forall m, dlt c0 F m d \/ In m (rev bucket ++ done) -> clean c0 c' m).
+Proof.
+  intros c0 F d bucket Hcl. induction bucket as [|n t IH]; intros Hnd Hdep c done Hexp Hun Hcln Hdis; simpl.
+  - tauto.
+  - inversion Hnd as [|? ? Hn1 Hn2]; subst.
+    destruct (flatten_step_inv c0 F d c n done Hcl (Hdep n (or_introl eq_refl)) Hexp Hun Hcln (Hdis n (or_introl eq_refl)))
+      as [A1 [A2 A3]].
+    specialize (IH Hn2 (fun m Hm => Hdep m (or_intror Hm)) (flatten_step c0 c n) (n :: done) A1 A2 A3).
+    destruct IH as [B1 [B2 B3]].
+    { intros m Hm [<-|Hmd]; [contradiction | exact (Hdis m (or_intror Hm) Hmd)]. }
+    rewrite <- app_assoc. simpl. tauto.
+Qed.
+
+Lemma flatten_all_clean : forall c0,
+  closed c0 -> NoDup (map g_name c0) ->
+  forall n d, depth (S (length c0)) c0 n = Some d -> In n (map g_name c0) -> clean c0 (flatten_all c0) n.
+Proof.
+  intros c0 Hcl Hnd0. set (F := S (length c0)). set (ns := sort_names (map g_name c0)).
+  assert (NoDup ns) as Hns by (apply sort_names_NoDup; exact Hnd0).
+  unfold flatten_all, depth_order. fold F. fold ns. rewrite fold_left_flat_map.
+  assert (forall k c j,
+    same_exp c0 c ->
+    (forall m, ~ dlt c0 F m j -> lookup c m = lookup c0 m) ->
+    (forall m, dlt c0 F m j -> clean c0 c m) ->
+    let c' := fold_left (fun a d => fold_left (flatten_step c0) (filter (fun n => opt_nat_eqb (depth F c0 n) d) ns) a) (seq j k) c in
+    same_exp c0 c' /\ (forall m, dlt c0 F m (j + k) -> In m ns -> clean c0 c' m)) as Hmain.
+  2:{ intros n d Hd Hn. destruct (Hmain F c0 O (same_exp_refl c0)) as [_ H].
+      - intros m _. reflexivity.
+      - intros m [d' [_ Hlt]]. lia.
+      - apply H; [|apply sort_names_In; exact Hn]. exists d. split; [exact Hd|]. apply depth_lt_fuel in Hd. lia. }
+  induction k as [|k IHk]; intros c j Hexp Hun Hcln; simpl.
+  - split; [exact Hexp|]. intros m Hm _. apply Hcln. rewrite Nat.add_0_r in Hm. exact Hm.
+  - set (bucket := filter (fun n => opt_nat_eqb (depth F c0 n) j) ns).
+    assert (forall n, In n bucket <-> In n ns /\ depth F c0 n = Some j) as Hb.
+    { intro n. unfold bucket. rewrite filter_In. unfold opt_nat_eqb.
+      destruct (depth F c0 n) as [x|]; [rewrite Nat.eqb_eq|]; split; intros [H1 H2]; split; try assumption; try congruence; try discriminate. }
+    destruct (flatten_bucket_inv c0 F j bucket Hcl (NoDup_filter _ _ Hns) (fun n Hn => proj2 (proj1 (Hb n) Hn)) c [] Hexp)
+      as [B1 [B2 B3]].
+    { intros m Hm _. apply Hun. exact Hm. }
+    { intros m [Hm|[]]. apply Hcln. exact Hm. }
+    { intros n _ []. }
+    rewrite app_nil_r in B2, B3.
+    specialize (IHk (fold_left (flatten_step c0) bucket c) (S j) B1).
+    destruct IHk as [C1 C2].
+    + intros m Hm. destruct (in_dec (list_eq_dec N.eq_dec) m bucket) as [Hin|Hnin].
+      * exfalso. apply Hm. exists j. split; [apply Hb; exact Hin | lia].
+      * apply B2; [|rewrite <- in_rev; exact Hnin]. intros [d' [E Hlt]]. apply Hm. exists d'. split; [exact E | lia].
+    + intros m [d' [E Hlt]]. destruct (Nat.eq_dec d' j) as [->|Hne].
+      * (* m has depth j: it is in the bucket iff it is a glyph name; otherwise it has no entry at all *)
+        destruct (in_dec (list_eq_dec N.eq_dec) m ns) as [Hin|Hnin].
+        -- apply B3. right. rewrite <- in_rev. apply Hb. split; assumption.
+        -- intros g b L _. exfalso. apply Hnin. apply sort_names_In.
+           assert (lookup c0 m <> None) as Hex.
+           { destruct F; simpl in E; [discriminate|]. destruct (lookup c0 m); [discriminate | discriminate E]. }
+           destruct (lookup c0 m) as [g0|] eqn:L0; [|congruence]. apply lookup_Some_iff. eauto.
+      * apply B3. left. exists d'. split; [exact E | lia].
+    + split; [exact C1|]. intros m Hm Hin. apply C2; [|exact Hin].
+      replace (S j + k)%nat with (j + S k)%nat by lia. exact Hm.
+Qed.
+
+(* ------------------------------------------------------------------ components stay inside the glyph order *)
+Definition comps_in (c : ctx) (o : list name) : Prop :=
+  forall n g b, lookup c n = Some g -> In b (g_comps g) -> In b o.
+
+Lemma comps_in_set : forall c o g, comps_in c o -> (forall b, In b (g_comps g) -> In b o) -> comps_in (ctx_set c g) o.
+Proof.
+  intros c o g Hc Hg n g0 b L Hb. rewrite lookup_ctx_set in L.
+  destruct (name_eqb (g_name g) n); [inversion L; subst; apply Hg; exact Hb | eapply Hc; eassumption].
+Qed.
+
+Lemma comps_in_mono : forall c o o', comps_in c o -> incl o o' -> comps_in c o'.
+Proof. intros c o o' H Hi n g b L Hb. apply Hi. eapply H; eassumption. Qed.
+
+Lemma fold_comps_in : forall (step : ctx -> name -> ctx) o l,
+  (forall c n, comps_in c o -> comps_in (step c n) o) ->
+  forall c, comps_in c o -> comps_in (fold_left step l c) o.
+Proof.
+  intros step o l Hs. induction l as [|x t IH]; intros c Hc; simpl; [exact Hc|]. apply IH. apply Hs. exact Hc.
+Qed.
+
+Lemma drop_unretained_comps_in : forall order c o, comps_in c o -> comps_in (drop_unretained order c) o.
+Proof.
+  intros order c o H. unfold drop_unretained. apply fold_comps_in; [|exact H].
+  intros c' n Hc. destruct (lookup c' n) as [g|]; [|exact Hc].
+  destruct (existsb _ (g_comps g)); [|exact Hc]. apply comps_in_set; [exact Hc|]. intros b [].
+Qed.
+
+Lemma leaves_in : forall f c o b, comps_in c o -> In b o -> forall x, In x (leaves f c b) -> In x o.
+Proof.
+  induction f as [|f IH]; intros c o b Hc Hb x Hx; cbn [leaves] in Hx.
+  - destruct Hx as [<-|[]]. exact Hb.
+  - destruct (lookup c b) as [r|] eqn:L; [|destruct Hx as [<-|[]]; exact Hb].
+    destruct (g_comps r) as [|b0 cs] eqn:G; [destruct Hx as [<-|[]]; exact Hb|].
+    apply in_flat_map in Hx as [y [Hy Hx]]. eapply IH; [exact Hc | | exact Hx].
+    eapply Hc; [exact L | rewrite G; exact Hy].
+Qed.
+
+Lemma optional_comps_in : forall fl order c o, comps_in c o -> comps_in (optional_transformations fl order c) o.
+Proof.
+  intros fl order c o H. unfold optional_transformations.
+  destruct (fl_decompose fl); [|destruct (fl_flatten fl); [|exact H]].
+  - unfold decompose_all. apply fold_comps_in; [|exact H].
+    intros c' n Hc. destruct (lookup c' n) as [g|]; [|exact Hc]. destruct (g_comps g); [exact Hc|].
+    apply comps_in_set; [exact Hc | intros b []].
+  - unfold flatten_nested. apply fold_comps_in; [|exact H].
+    intros c' n Hc. destruct (lookup c' n) as [g|] eqn:L; [|exact Hc]. destruct (g_comps g) as [|b0 cs] eqn:G; [exact Hc|].
+    apply comps_in_set; [exact Hc|]. cbn [g_comps with_comps]. intros b Hb. apply in_flat_map in Hb as [y [Hy Hb]].
+    eapply leaves_in; [exact Hc | | exact Hb]. eapply Hc; [exact L | rewrite G; exact Hy].
+Qed.
+
+Lemma resolve_comps_in : forall o0 fuel d todo s p s',
+  (forall t b, In t todo -> In b (g_comps (snd t)) -> In b o0) ->
+  incl o0 (st_order s) ->
+  comps_in (st_ctx s) (st_order s) ->
+  resolve fuel d s p todo = Some s' ->
+  comps_in (st_ctx s') (st_order s').
+Proof.
+  intro o0. induction fuel as [|f IH]; intros d todo s p s' Ht Ho Hc H.
+  - destruct todo as [|[o g] rest]; simpl in H; [|discriminate]. inversion H; subst. exact Hc.
+  - destruct todo as [|[o g] rest]; simpl in H; [inversion H; subst; exact Hc|].
+    assert (forall t b, In t rest -> In b (g_comps (snd t)) -> In b o0) as Hrest
+      by (intros t b Hin; apply Ht; right; exact Hin).
+    destruct (existsb (reaches d (st_ctx s) p) (g_comps g)).
+    + eapply IH; [| | |exact H]; try assumption.
+      intros t b Hin. apply in_app_or in Hin as [Hin|[<-|[]]]; [apply Hrest; exact Hin | apply Ht; left; reflexivity].
+    + destruct o.
+      * eapply IH; [exact Hrest| | |exact H]; simpl; [exact Ho|].
+        apply comps_in_set; [exact Hc | intros b []].
+      * pose proof (name_for_derivative_fresh (g_name g) (st_order s)) as Hfresh.
+        eapply IH; [exact Hrest| | |exact H]; unfold move_contours; simpl; rewrite (iset_insert_fresh _ _ Hfresh).
+        -- intros x Hx. apply in_or_app. left. apply Ho. exact Hx.
+        -- apply comps_in_set; [apply comps_in_set|].
+           ++ eapply comps_in_mono; [exact Hc|]. intros x Hx. apply in_or_app. left. exact Hx.
+           ++ intros b [].
+           ++ simpl. intros b Hb. apply in_app_or in Hb as [Hb|[<-|[]]].
+              ** apply in_or_app. left. apply Ho. apply (Ht (Move, g) b (or_introl eq_refl) Hb).
+              ** apply in_or_app. right. left. reflexivity.
+Qed.
+
+Definition acyclic (gs : ctx) : Prop :=
+  forall n, In n (map g_name gs) -> depth (S (length gs)) (prune gs) n <> None.
+
+Lemma prune_names : forall c, map g_name (prune c) = map g_name c.
+Proof. intro c. unfold prune. rewrite map_map. reflexivity. Qed.
+
+Lemma gow_comps : forall fl prelim gs r,
+  NoDup (map g_name gs) -> acyclic gs ->
+  (forall n, In n (map g_name gs) -> In n prelim) ->
+  glyph_order_work fl prelim gs = Some r ->
+  comps_in (r_ctx r) (r_order r).
+Proof.
+  intros fl prelim gs r Hnd Hac Hsup H. unfold glyph_order_work in H.
+  set (c0 := prune gs) in *. set (c1 := flatten_all c0) in *.
+  assert (same_exp gs c0) as He0 by apply prune_same_exp.
+  assert (same_exp c0 c1) as He1 by apply flatten_all_same_exp.
+  assert (same_exp gs c1) as Hexp by (eapply same_exp_trans; eassumption).
+  assert (filter (is_export c1) prelim = filter (is_export gs) prelim) as Hf.
+  { apply filter_ext_in'. intros x _. apply same_exp_is_export. exact Hexp. }
+  rewrite Hf in H. set (o0 := filter (is_export gs) prelim) in *.
+  assert (comps_in c1 o0) as Hc1.
+  { intros n g b L Hb.
+    assert (In n (map g_name c0)) as Hn.
+    { apply lookup_Some_iff. pose proof (same_exp_exists_in _ _ n He1) as E. unfold exists_in in E. rewrite L in E.
+      destruct (lookup c0 n); [eauto | discriminate]. }
+    assert (exists d, depth (S (length c0)) c0 n = Some d) as [d Hd].
+    { unfold c0 at 1. unfold prune at 1. rewrite map_length. fold c0.
+      unfold c0 in Hn. rewrite prune_names in Hn. specialize (Hac n Hn). fold c0 in Hac.
+      destruct (depth (S (length gs)) c0 n); [eauto | congruence]. }
+    assert (NoDup (map g_name c0)) as Hnd0 by (unfold c0; rewrite prune_names; exact Hnd).
+    destruct (flatten_all_clean c0 (prune_closed gs) Hnd0 n d Hd Hn g b L Hb) as [Hx1 Hx2].
+    apply filter_In. split.
+    - apply Hsup. rewrite (same_exp_exists_in _ _ b He0) in Hx2. unfold exists_in in Hx2.
+      apply lookup_Some_iff. destruct (lookup gs b); [eauto | discriminate].
+    - rewrite <- (same_exp_is_export _ _ b He0). exact Hx1. }
+  set (c2 := drop_unretained o0 c1) in *.
+  assert (comps_in c2 o0) as Hc2 by (apply drop_unretained_comps_in; exact Hc1).
+  match type of H with match ?R with _ => _ end = _ => destruct R as [s|] eqn:HR end; [|discriminate].
+  apply (resolve_comps_in o0) in HR; simpl; [| |apply incl_refl|exact Hc2].
+  2:{ intros t b Ht Hb. unfold todo_of in Ht. apply in_flat_map in Ht as [n [Hn Ht]].
+      destruct (lookup c1 n) as [g|] eqn:L; [|destruct Ht]. destruct (is_mixed g); [|destruct Ht].
+      destruct Ht as [<-|[]]. simpl in Hb. eapply Hc1; eassumption. }
+  unfold ensure_notdef in H. injection H as Hr. rewrite <- Hr. simpl.
+  assert (comps_in (optional_transformations fl (st_order s) (st_ctx s)) (notdef_first (st_order s))) as Hc3.
+  { eapply comps_in_mono; [apply optional_comps_in; exact HR|].
+    intros x Hx. unfold notdef_first. destruct (list_eq_dec N.eq_dec x NOTDEF) as [->|Hne]; [left; reflexivity|].
+    right. apply iset_remove_In. split; assumption. }
+  destruct (mem NOTDEF (st_order s)); [exact Hc3|]. apply comps_in_set; [exact Hc3 | intros b []].
+Qed.
+
+Definition acyclicb (gs : ctx) : bool :=
+  forallb (fun n => match depth (S (length gs)) (prune gs) n with Some _ => true | None => false end) (map g_name gs).
+
+Lemma acyclicb_sound : forall gs, acyclicb gs = true -> acyclic gs.
+Proof.
+  intros gs H n Hn. unfold acyclicb in H. rewrite forallb_forall in H. specialize (H n Hn).
+  destruct (depth (S (length gs)) (prune gs) n); [discriminate | discriminate H].
+Qed.
+
+Lemma compile_font_inv : forall fl prelim gs r cm,
+  compile fl prelim gs = Font r cm ->
+  glyph_order_work fl prelim gs = Some r /\ be_missing prelim gs (r_order r) = [] /\ cmap_of r = Some cm.
+Proof.
+  intros fl prelim gs r cm H. unfold compile in H.
+  destruct (glyph_order_work fl prelim gs) as [r'|]; [|discriminate].
+  destruct (be_missing prelim gs (r_order r')) eqn:B; destruct (cmap_of r') eqn:C; try discriminate.
+  inversion H; subst. auto.
 Qed.
